@@ -196,24 +196,27 @@ ToLower(s) == [i \in 1..Len(s) |-> LowerByte(s[i])]
 ToUpper(s) == [i \in 1..Len(s) |-> UpperByte(s[i])]
 
 (* ================================================================== contracts of batch events *)
-IsMatrix(pool, m) == Len(m) = Len(pool) /\ \A i \in 1..Len(m) : Len(m[i]) = Len(pool)
+(* A matrix event carries two pools a (rows) and b (columns) and m[i][j] = what the              *)
+(* implementation returned for (a[i], b[j]).                                                     *)
+IsMatrix(a, b, m) == Len(m) = Len(a) /\ \A i \in 1..Len(m) : Len(m[i]) = Len(b)
 
-(* full comparison matrix: m[i][j] = what cmp(pool[i], pool[j]) returned *)
-CmpMatrixOK(pool, m) ==
-    IsMatrix(pool, m) /\ \A i \in 1..Len(pool) : \A j \in 1..Len(pool) : m[i][j] = Cmp(pool[i], pool[j])
-(* the cell of the first disagreement, for diagnostics: <<i, j>> or <<0, 0>> *)
-EqMatrixOK(pool, m) ==
-    IsMatrix(pool, m) /\ \A i \in 1..Len(pool) : \A j \in 1..Len(pool) : m[i][j] = (pool[i] = pool[j])
-StartsMatrixOK(pool, m) ==
-    IsMatrix(pool, m) /\ \A i \in 1..Len(pool) : \A j \in 1..Len(pool) : m[i][j] = StartsWith(pool[i], pool[j])
-EndsMatrixOK(pool, m) ==
-    IsMatrix(pool, m) /\ \A i \in 1..Len(pool) : \A j \in 1..Len(pool) : m[i][j] = EndsWith(pool[i], pool[j])
-FindMatrixOK(pool, m) ==
-    IsMatrix(pool, m) /\ \A i \in 1..Len(pool) : \A j \in 1..Len(pool) : m[i][j] = Find(pool[i], pool[j])
-CplMatrixOK(pool, m) ==
-    IsMatrix(pool, m) /\ \A i \in 1..Len(pool) : \A j \in 1..Len(pool) : m[i][j] = CommonPrefixLen(pool[i], pool[j])
-(* a matrix that claims to be an order must, redundantly, be one: checked on the logged matrix   *)
-(* itself, without reference to the definition                                                    *)
+CmpMatrixOK(a, b, m) ==
+    IsMatrix(a, b, m) /\ \A i \in 1..Len(a) : \A j \in 1..Len(b) : m[i][j] = Cmp(a[i], b[j])
+(* neg: the matrix holds the answers of != *)
+EqMatrixOK(a, b, m, neg) ==
+    IsMatrix(a, b, m) /\ \A i \in 1..Len(a) : \A j \in 1..Len(b) : m[i][j] = ((a[i] = b[j]) # neg)
+StartsMatrixOK(a, b, m) ==
+    IsMatrix(a, b, m) /\ \A i \in 1..Len(a) : \A j \in 1..Len(b) : m[i][j] = StartsWith(a[i], b[j])
+EndsMatrixOK(a, b, m) ==
+    IsMatrix(a, b, m) /\ \A i \in 1..Len(a) : \A j \in 1..Len(b) : m[i][j] = EndsWith(a[i], b[j])
+FindMatrixOK(a, b, m) ==
+    IsMatrix(a, b, m) /\ \A i \in 1..Len(a) : \A j \in 1..Len(b) : m[i][j] = Find(a[i], b[j])
+CplMatrixOK(a, b, m) ==
+    IsMatrix(a, b, m) /\ \A i \in 1..Len(a) : \A j \in 1..Len(b) : m[i][j] = CommonPrefixLen(a[i], b[j])
+FindByteOK(a, bytes, m) ==
+    IsMatrix(a, bytes, m) /\ \A i \in 1..Len(a) : \A k \in 1..Len(bytes) : m[i][k] = FindByte(a[i], bytes[k])
+(* a square matrix (a = b) that claims to be an order must, redundantly, be one: checked on the   *)
+(* logged matrix itself, without reference to the definition                                      *)
 MatrixIsTotalOrder(m) ==
     LET n == Len(m) IN
     /\ \A i \in 1..n : m[i][i] = 0
@@ -228,4 +231,62 @@ HashLawOK(pool, h) ==
     /\ Len(h) = Len(pool)
     /\ \A i \in 1..Len(pool) : Len(h[i]) >= 1 /\ \A c \in 1..Len(h[i]) : h[i][c] = h[i][1]
     /\ \A i \in 1..Len(pool) : \A j \in 1..Len(pool) : pool[i] = pool[j] => h[i][1] = h[j][1]
+
+(* one slicing case c of the string s: c.k names the operation, c.a / c.n its arguments, c.r the  *)
+(* bytes of the returned view, c.ri an integer result, c.ok = FALSE a panic                        *)
+SliceCaseOK(s, c) ==
+    \/ c.k = "substring" /\ c.ok /\ c.a <= Len(s) /\ c.r = Slice(s, c.a, c.n) /\ c.ri = c.a   \* ri: offset of the view
+    \/ c.k = "substring_max" /\ c.ok /\ c.a <= Len(s) /\ c.r = SliceFrom(s, c.a)      \* len = usize::MAX
+    \/ c.k = "substring_from" /\ c.ok /\ c.r = SliceFrom(s, c.a)
+    \/ c.k = "prefix" /\ c.ok /\ c.r = Prefix(s, c.a)
+    \/ c.k = "suffix" /\ c.ok /\ c.r = Suffix(s, c.a)
+    \/ c.k = "get_byte" /\ c.ok /\ c.ri = (IF c.a < Len(s) THEN s[c.a + 1] ELSE -1)
+    (* start beyond the end: the slice operation underneath panics; a panic or an empty view *)
+    \/ c.k = "substring_oob" /\ c.a > Len(s) /\ (~c.ok \/ c.r = <<>>)
+SliceOK(s, cases) == \A i \in 1..Len(cases) : SliceCaseOK(s, cases[i])
+
+JoinOK(sep, parts, r) == r = Join(sep, parts)
+
+(* everything word_boundary.rs answered for one text t *)
+WordsEventOK(t, r, n, b, wb, at) ==
+    /\ WordsOK(t, r) /\ n = Len(r)
+    /\ BoundariesOK(t, b)
+    /\ Len(wb) = Len(t) + 2 /\ \A p \in 0..(Len(t) + 1) : wb[p + 1] = IsWordBoundary(t, p)
+    /\ Len(at) = Len(t) + 1 /\ \A p \in 0..Len(t) : WordAtOK(t, p, at[p + 1][1], at[p + 1][2])
+
+(* one LineProcessor result x for the text: x.via the entry point, x.p/x.s/x.t the configuration,  *)
+(* x.r the lines delivered, x.n the count returned.  Err (x.ok = FALSE) is a refusal.              *)
+LinesCaseOK(text, x) ==
+    \/ ~x.ok /\ x.via # "panic"
+    \/ /\ x.ok /\ x.lnok
+       /\ LET want == Lines(text, x.p, x.s, x.t) IN
+          IF x.via = "count_lines" THEN x.n = Len(want)
+          ELSE x.r = want /\ x.n = Len(want)
+LinesOK(text, res) == \A i \in 1..Len(res) : LinesCaseOK(text, res[i])
+
+(* LineSplitter::split(line, d), d non-empty: the fields between the delimiters *)
+SplitCaseOK(c) == ~c.ok \/ c.r = Split(c.line, c.d)
+
+(* case conversion: mode "lower" / "upper" / "same" *)
+CaseCaseOK(c) ==
+    \/ ~c.ok /\ c.mode # "panic"
+    \/ c.ok /\ c.mode = "lower" /\ c.r = ToLower(c.s)
+    \/ c.ok /\ c.mode = "upper" /\ c.r = ToUpper(c.s)
+    \/ c.ok /\ c.mode = "same" /\ c.r = c.s
+
+(* sorted string vectors *)
+Count(s, x) == Cardinality({ i \in 1..Len(s) : s[i] = x })
+ToSet(s) == { s[i] : i \in 1..Len(s) }
+IsPermutation(x, y) == Len(x) = Len(y) /\ ToSet(x) = ToSet(y) /\ \A e \in ToSet(x) : Count(x, e) = Count(y, e)
+(* r enumerates input in ascending order, nothing skipped, nothing repeated *)
+SortedEnumOK(input, r) == LexSorted(r) /\ IsPermutation(input, r)
+(* from_strings documents "Remove duplicates": ascending, each distinct input string once *)
+SortedDistinctOK(input, r) == StrictlyLexSorted(r) /\ ToSet(r) = ToSet(input)
+(* range(lo, hi) of a sorted vector v: "Start of the range (inclusive)", "End (exclusive)":       *)
+(* the elements lo <= x < hi in order, duplicates included                                         *)
+RECURSIVE SelectRange(_, _, _, _)
+SelectRange(v, lo, hi, i) ==
+    IF i > Len(v) THEN <<>>
+    ELSE (IF Cmp(v[i], lo) >= 0 /\ Cmp(v[i], hi) < 0 THEN << v[i] >> ELSE <<>>) \o SelectRange(v, lo, hi, i + 1)
+RangeOK(v, lo, hi, r) == r = SelectRange(v, lo, hi, 1)
 =============================================================================
